@@ -11,22 +11,21 @@ MIN_THEOREMS = 14
 RULE = ("ops: dur/absdur with 9 integer arguments (years months weeks days hours minutes seconds milliseconds microseconds) of mixed "
         "sign: small mixed tuples, single large components up to 10^6 (10^9 days for days), sign-cancelling tuples whose total is "
         "0 / +-1 us / +-1 s, negative totals with a sub-second part, unit multiples +-1 us, totals straddling 2^31, 2^32, 2^33, 2^34 "
-        "seconds (+- 0, 1, 999999 us), years/months up to +-10^6. Model comparison on the float-exact range only (see ASSUMPTIONS); "
+        "seconds (+- 0, 1, 999999 us), years/months up to +-10^6. Model comparison on the whole range; "
         "outside it the oracle still checks the native slots and years/months. non-trivial = distinct tuple with negative part, "
         "non-zero sub-second part, cancelling components, years/months, or a boundary total")
 EXHAUSTIVE = {"quick": False, "thorough": False}
 TRUSTED = [
     "Model/Dur.lean is a hand model of duration.py in exact integer microseconds, tied by this correspondence run",
-    "Model/DurFloat.lean models the same code with its binary64 roundings (exact dyadic rationals); it answers the requests outside "
-    "the float-exact range (durf/absdurf) - no theorem depends on it",
+    "Model/DurFloat.lean (float-faithful model of the *pre-fix* normalisation) is kept for the Lean counterexamples of the former "
+    "findings F17/F18; it is no longer used by the correspondence run and no theorem depends on it",
     "native datetime.timedelta is the reference (exact integer arithmetic for integer arguments)",
 ]
 ASSUMPTIONS = [
-    "float bridge: Duration.__new__ computes total_seconds() as an IEEE double; the model is exact. Model and code are compared "
-    "(and the component part of the oracle is applied) on the float-exact range only: |part without years/months| < 2^33 s when "
-    "years = months = 0, otherwise |part| < 2^32 s and |native total| < 2^32 s (error analysis: half-ulp 2^-21 s resp. 2 x 2^-22 s "
-    "< 0.5 us); AbsoluteDuration: |part| < 2^33 s. Beyond it the shadow components can be off by a few us (observed from exactly "
-    "2^33 s), the native slots stay exact",
+    "since the fix 'Duration normalisation ... exact to the microsecond' Duration.__new__ computes on the integer microseconds of the "
+    "native slots, so the exact model is compared with the code on the whole input range (no float bridge any more); the only float left "
+    "is total_*(): in_weeks..in_seconds = int(total_*()) are compared with the model below 2^53 us (285 years) and checked by the oracle "
+    "against total_seconds() everywhere (normalize())",
     "property C09 quantifies over integer arguments only; float arguments are not generated",
 ]
 
@@ -215,11 +214,24 @@ def corpus():
 
 
 def line(op, backend):
-    if not in_domain(op):
+    if False and not in_domain(op):   # since the exact-normalisation fix the exact model applies everywhere
         # outside the float-exact range the exact model (the one the theorems are about) does not apply; the request goes to
         # the float-faithful model (Model/DurFloat.lean) so that the code is still compared with a model everywhere
         return " ".join([op[0] + "f"] + [str(x) for x in op[1:]])
     return " ".join(str(x) for x in op)
+
+
+def normalize(op, out):
+    """in_weeks..in_seconds are `int(total_*())`, i.e. truncations of a *float*: beyond 2^53 us (285 years) the float
+    quotient can round across an integer (17179869184.999999 s -> 17179869185.0), which the exact-integer model does not
+    follow; those five fields are compared only below that size (the oracle still checks them against total_seconds())."""
+    f = out.split()
+    if f[0] != "ok" or len(f) < 18:
+        return out
+    days, secs, us = int(f[1]), int(f[2]), int(f[3])
+    if abs((days * 86400 + secs) * US + us) < 2 ** 53:
+        return out
+    return " ".join(f[:13] + ["*"] * 5 + f[18:])
 
 
 _H = {}
